@@ -7,7 +7,6 @@ import (
 	"encoding/hex"
 	"sort"
 	"strings"
-	"testing"
 
 	"github.com/ChainSafe/gossamer/internal/database"
 	"github.com/ChainSafe/gossamer/internal/primitives/core/hash"
